@@ -3,11 +3,41 @@ package sym
 // Opaque native objects: regular expressions run natively on concrete subjects.
 
 import (
+	"crypto/md5"
+	"crypto/sha1"
+	"net"
 	"regexp"
 )
 
 func init() {
 	for k, v := range map[string]externalFn{
+		"crypto/md5.Sum": func(m *Machine, fr *frame, a []value) value {
+			sum := md5.Sum(m.concBytes(a[0], "md5.Sum"))
+			out := make(array, len(sum))
+			for i, b := range sum {
+				out[i] = b
+			}
+			return out
+		},
+		"crypto/sha1.Sum": func(m *Machine, fr *frame, a []value) value {
+			sum := sha1.Sum(m.concBytes(a[0], "sha1.Sum"))
+			out := make(array, len(sum))
+			for i, b := range sum {
+				out[i] = b
+			}
+			return out
+		},
+		"net.ParseIP": func(m *Machine, fr *frame, a []value) value {
+			ip := net.ParseIP(m.concStr(a[0], "net.ParseIP"))
+			if ip == nil {
+				return []value(nil)
+			}
+			out := make([]value, len(ip))
+			for i, b := range ip {
+				out[i] = b
+			}
+			return out
+		},
 		"regexp.MustCompile": func(m *Machine, fr *frame, a []value) value {
 			re, err := regexp.Compile(m.concStr(a[0], "regexp.MustCompile"))
 			if err != nil {
@@ -85,6 +115,19 @@ func strSliceVal(ss []string) value {
 	out := make([]value, len(ss))
 	for i, s := range ss {
 		out[i] = s
+	}
+	return out
+}
+
+func (m *Machine) concBytes(v value, what string) []byte {
+	sl, _ := v.([]value)
+	out := make([]byte, len(sl))
+	for i, b := range sl {
+		c, ok := b.(byte)
+		if !ok {
+			panic(unsupported{what + " on symbolic bytes"})
+		}
+		out[i] = c
 	}
 	return out
 }
